@@ -59,6 +59,9 @@ type Ctx struct {
 	// reviewed functions that the current exploration follows in place as well (a rule
 	// about a pipeline of reviewed functions explores it as one unit)
 	alsoInline map[string]bool
+	// functions introduced after the review whose calls nevertheless stay opaque (a rule
+	// treats the call itself as the event it talks about)
+	opaqueNew map[string]bool
 }
 
 func NewCtx(p *core.Prog, prop, tier string) *Ctx {
